@@ -78,6 +78,8 @@ namespace hs
         }
     };
 
+    sim::RunResult run_exit_leak(const sim::Plan& plan);
+
     class Interp
     {
     public:
@@ -109,6 +111,10 @@ namespace hs
         void op_corrupt(const sim::Op& op);
         void op_foreign_adjacent(const sim::Op& op);
         void op_drain(const sim::Op& op);
+        void op_bad(const sim::Op& op);
+        void op_bad_block(const sim::Op& op);
+        void judge_death(int outcome, const char* what);
+        static std::size_t arena_header_bytes();
         void op_corsweep(const sim::Op& op);
         std::size_t fence_of(ObjSt& S);
 
